@@ -37,8 +37,8 @@ type ServerCfg struct {
 	// every pair of Params and adds more, so that what is announced does not
 	// depend on whether a later option replaces or extends an earlier one.
 	Params2 map[string]string `json:"params2,omitempty"`
-	Version     string            `json:"version,omitempty"`
-	TLS         string            `json:"tls,omitempty"` // "" | empty | certs
+	Version string            `json:"version,omitempty"`
+	TLS     string            `json:"tls,omitempty"` // "" | empty | certs
 	// AuthFirst: an earlier SessionAuthStrategy option ("accept-all": a strategy
 	// that lets everybody in) which the option configured by Auth follows and
 	// - last option wins - replaces
@@ -126,7 +126,7 @@ func (cc *ConnCase) CompletedBefore() []int {
 	for i, st := range cc.Steps {
 		n := len(st.Msgs) + carry
 		carry = 0
-		if st.HoldBack > 0 && len(st.Msgs) > 0 && i+1 < len(cc.Steps) {
+		if st.HoldBack > 0 && len(st.Msgs) > 0 && i+1 < len(cc.Steps) && cc.heldBack(i) {
 			n--
 			carry = 1
 		}
@@ -135,11 +135,26 @@ func (cc *ConnCase) CompletedBefore() []int {
 	return out
 }
 
+// heldBack reports whether step i's HoldBack really leaves a tail of its last
+// message for the next step (a HoldBack at or beyond the message's encoded
+// length delivers all of it; a pattern chunk is cut at a multiple of its period).
+func (cc *ConnCase) heldBack(i int) bool {
+	st := cc.Steps[i]
+	_, tail := splitChunks(st.Msgs[len(st.Msgs)-1].Encode(), int64(st.HoldBack))
+	var n int64
+	for _, ch := range tail {
+		n += ch.Len()
+	}
+	return n > 0
+}
+
 // Fault kinds: read-err (At = index of the Read call), eof-at-byte (At = input
 // bytes delivered before the peer vanishes), write-err (At = index of the Write
 // call, Bytes accepted before failing), write-err-transient (that one write
-// fails, later ones succeed), empty-read (At = Read call that returns 0,nil),
+// fails after Bytes bytes reached the peer, later ones succeed), empty-read (At = Read call that returns 0,nil),
 // write-stall (E2: the At-th Write never completes: the peer stopped reading),
+// read-timeout (the At-th Read reports a timeout and delivers nothing; no byte is
+// lost and later reads succeed),
 // close-err (the server's Close of the connection reports an error; the
 // connection is closed all the same),
 // write-slow (the peer stalls for Ms simulated milliseconds inside the At-th
@@ -150,6 +165,8 @@ type Fault struct {
 	At    int    `json:"at"`
 	Bytes int    `json:"bytes,omitempty"`
 	Ms    int    `json:"ms,omitempty"` // write-slow: how long the peer stalls (simulated milliseconds)
+	// Timeout (write-err-transient, read-timeout): the error reports Timeout() == true
+	Timeout bool `json:"timeout,omitempty"`
 }
 
 // TLSClient describes a real crypto/tls client goroutine (engine E2).
